@@ -76,6 +76,23 @@ type node struct {
 	conns               []net.Conn
 	down                bool
 	onRest              func(key string) // observer of management requests (AddRace)
+	hang                chan struct{}    // non-nil: the data path does not answer (pings included) until closed
+	pingPending         bool             // a ping arrived while the node hangs
+}
+
+// blocked reports whether the node hangs; a hanging node answers nothing until released
+func (n *node) blocked(isPing bool) bool {
+	n.mu.Lock()
+	h := n.hang
+	if h != nil && isPing {
+		n.pingPending = true
+	}
+	n.mu.Unlock()
+	if h == nil {
+		return false
+	}
+	<-h
+	return true
 }
 
 type drvT struct {
@@ -109,6 +126,9 @@ type dataProc struct {
 }
 
 func (d *dataProc) inject(key string) error {
+	if d.n.blocked(false) {
+		return fmt.Errorf("injected hang")
+	}
 	switch d.n.fault(key) {
 	case "err":
 		return fmt.Errorf("injected %s error", key)
@@ -148,6 +168,9 @@ func (d *dataProc) Unmap(off, l int64) (int, error) {
 }
 func (d *dataProc) Close() error { return nil }
 func (d *dataProc) PingResponse() error {
+	if d.n.blocked(true) {
+		return fmt.Errorf("injected hang")
+	}
 	d.n.mu.Lock()
 	f := d.n.faults["ping"]
 	d.n.mu.Unlock()
@@ -317,6 +340,34 @@ func (f *factory) Create(address string) (types.Backend, error) {
 	}
 	return b, err
 }
+
+// count of backend instances created for an address, and the retraction of the newest one: an
+// add / start that fails after factory.Create never starts the instance's monitoring goroutine,
+// so nobody must wait for it at the gate
+func (f *factory) count(address string) int {
+	f.mu.Lock()
+	defer f.mu.Unlock()
+	k := 0
+	for _, a := range f.created {
+		if a == address {
+			k++
+		}
+	}
+	return k
+}
+func (f *factory) retract(address string, mark int, err error) {
+	if err == nil || f.count(address) <= mark {
+		return
+	}
+	f.mu.Lock()
+	defer f.mu.Unlock()
+	for i := len(f.created) - 1; i >= 0; i-- {
+		if f.created[i] == address {
+			f.created = append(f.created[:i], f.created[i+1:]...)
+			return
+		}
+	}
+}
 func (f *factory) SignalToAdd(a, action string) error { return f.real.SignalToAdd(a, action) }
 func (f *factory) VerifyReplicaAlive(a string) bool   { return f.real.VerifyReplicaAlive(a) }
 
@@ -366,6 +417,7 @@ type Op struct {
 	Sf   bool     `json:"sf,omitempty"`
 	Af   bool     `json:"af,omitempty"`
 	Cf   bool     `json:"cf,omitempty"`
+	Mf   bool     `json:"mf,omitempty"` // Add: the joiner's setreplicamode(WO) fails
 	F    []string `json:"F,omitempty"` // armed faults (node names)
 	Kind string   `json:"kind,omitempty"`
 	Name string   `json:"name,omitempty"`
@@ -410,6 +462,7 @@ type run struct {
 	names   []string
 	w       *bufio.Writer
 	seq     int
+	t0      time.Time // start of the execution (records carry the elapsed ms)
 	nextW   int
 	rng     *rand.Rand
 	insts   map[string]int // address -> backend instances created
@@ -667,7 +720,7 @@ func (r *run) emit(ev string, a map[string]interface{}, res string, errText stri
 		a = map[string]interface{}{}
 	}
 	e := map[string]interface{}{"t": r.sc.ID, "seq": r.seq, "ev": ev, "a": a, "res": res, "err": errText,
-		"signals": sigs, "ctl": r.ctlState(), "nodes": nodes}
+		"signals": sigs, "ctl": r.ctlState(), "nodes": nodes, "ms": time.Since(r.t0).Milliseconds()}
 	for k, v := range extra {
 		e[k] = v
 	}
@@ -798,7 +851,9 @@ func (r *run) exec1(op Op) {
 			r.fac.createFail[n.addr()] = true
 			r.fac.mu.Unlock()
 		}
+		mark := r.fac.count(n.addr())
 		err := c.Start(n.addr())
+		r.fac.retract(n.addr(), mark, err)
 		r.fac.mu.Lock()
 		r.fac.createFail = map[string]bool{}
 		r.fac.mu.Unlock()
@@ -812,13 +867,21 @@ func (r *run) exec1(op Op) {
 			r.fac.mu.Unlock()
 		}
 		r.arm(op.F, "rest:snapshot", "err")
+		sF := append([]string{}, op.F...)
+		if op.Mf {
+			// the joiner refuses the switch to WO (after it took the add's snapshot)
+			r.arm([]string{op.A}, "rest:setreplicamode", "err")
+			sF = append(sF, "modefail")
+		}
 		before := map[string][]string{}
 		for _, nm := range r.names {
 			before[nm] = r.nodeState(r.node(nm)).Snaps
 		}
 		reached := false
 		r.fac.onCreate = func(address string) { reached = true }
+		mark := r.fac.count(n.addr())
 		err := c.AddReplica(n.addr())
+		r.fac.retract(n.addr(), mark, err)
 		r.fac.onCreate = nil
 		r.fac.mu.Lock()
 		r.fac.createFail = map[string]bool{}
@@ -835,7 +898,7 @@ func (r *run) exec1(op Op) {
 		if !reached {
 			r.emit("AddCheck", map[string]interface{}{"a": op.A}, res, et, nil)
 		} else {
-			r.emit("Add", map[string]interface{}{"a": op.A, "cf": op.Cf, "S": strs(op.F), "name": name}, res, et, nil)
+			r.emit("Add", map[string]interface{}{"a": op.A, "cf": op.Cf, "S": sF, "name": name}, res, et, nil)
 		}
 	case "Resize":
 		// grow the volume by one block through the controller; F = replicas whose own resize fails.
@@ -1006,6 +1069,66 @@ func (r *run) exec1(op Op) {
 			}
 		}
 		r.emit("Noop", map[string]interface{}{"snaprace": op.Name, "k": k}, "ok", "", nil)
+	case "SnapRemove":
+		// a volume snapshot with a RemoveReplica(op.A) that is issued the moment the snapshot
+		// makes its first management call to a replica -- i.e. while Snapshot executes.  The
+		// removal came first iff the removed replica does not hold the snapshot.
+		kickSR := make(chan struct{}, 1)
+		for _, nm := range r.names {
+			nd := r.node(nm)
+			nd.mu.Lock()
+			nd.onRest = func(key string) {
+				select {
+				case kickSR <- struct{}{}:
+				default:
+				}
+			}
+			nd.mu.Unlock()
+		}
+		var rmErr error
+		rmDone := make(chan struct{})
+		stop := make(chan struct{})
+		go func() {
+			defer close(rmDone)
+			select {
+			case <-kickSR:
+			case <-stop: // the snapshot made no management call: the removal follows it
+			}
+			rmErr = c.RemoveReplica(r.node(op.A).addr())
+		}()
+		_, snapErr := c.Snapshot(op.Name)
+		close(stop)
+		<-rmDone
+		for _, nm := range r.names {
+			nd := r.node(nm)
+			nd.mu.Lock()
+			nd.onRest = nil
+			nd.mu.Unlock()
+		}
+		holds := false
+		for _, sn := range r.nodeState(r.node(op.A)).Snaps {
+			if sn == op.Name {
+				holds = true
+			}
+		}
+		sres, set := resOf(snapErr)
+		rres, ret := resOf(rmErr)
+		emitS := func() {
+			r.emitPartial(map[string]interface{}{"t": r.sc.ID, "ev": "Snapshot", "a": map[string]interface{}{"name": op.Name, "S": []string{}},
+				"res": sres, "err": set, "touched": []string{}, "partial": true})
+		}
+		emitR := func() {
+			r.emitPartial(map[string]interface{}{"t": r.sc.ID, "ev": "RemoveReplica", "a": map[string]interface{}{"a": op.A},
+				"res": rres, "err": ret, "touched": []string{}, "partial": true})
+		}
+		if holds || snapErr != nil {
+			emitS()
+			emitR()
+		} else {
+			emitR()
+			emitS()
+		}
+		r.emit("Noop", map[string]interface{}{"snapremove": op.Name, "victim": op.A}, "ok", "", nil)
 	case "AddRace":
 		// an add with foreground writes running flat out while AddReplica executes.  A write
 		// the joiner applied came after the add's commit (snapshot on everybody + joiner
@@ -1081,7 +1204,9 @@ func (r *run) exec1(op Op) {
 			}
 		}()
 		time.Sleep(2 * time.Millisecond)
+		mark := r.fac.count(n.addr())
 		err := c.AddReplica(n.addr())
+		r.fac.retract(n.addr(), mark, err)
 		time.Sleep(3 * time.Millisecond)
 		close(stop)
 		<-wdone
@@ -1158,6 +1283,7 @@ func (r *run) exec1(op Op) {
 				<-g.release
 			}
 		}
+		markB := r.fac.count(want)
 		go func() { g.done <- c.AddReplica(want) }()
 		select {
 		case <-arrived:
@@ -1165,6 +1291,7 @@ func (r *run) exec1(op Op) {
 			r.emit("AddCheck", map[string]interface{}{"a": op.A, "gated": true}, "ok", "", nil)
 		case err := <-g.done:
 			r.fac.onCreate = nil
+			r.fac.retract(want, markB, err)
 			res, et := resOf(err)
 			r.emit("AddCheck", map[string]interface{}{"a": op.A}, res, et, nil)
 		}
@@ -1187,8 +1314,10 @@ func (r *run) exec1(op Op) {
 		for _, nm := range r.names {
 			g.before[nm] = r.nodeState(r.node(nm)).Snaps
 		}
+		mark := r.fac.count(n.addr())
 		close(g.release)
 		err := <-g.done
+		r.fac.retract(n.addr(), mark, err)
 		r.fac.mu.Lock()
 		r.fac.createFail = map[string]bool{}
 		r.fac.mu.Unlock()
@@ -1359,6 +1488,58 @@ func (r *run) exec1(op Op) {
 			mode = "err"
 		}
 		key := strings.ToLower(op.Ev)
+		variant := ""
+		if mode == "hangreset" {
+			// the replicas in F stop answering (connection open); once a ping of the controller is
+			// outstanding at each of them the write is issued, and 300 ms later their data
+			// connections are reset.  For the controller this is a connection that drops during a
+			// write (mode "drop"); the write frame was sent but never handed to the replica.
+			mode, variant = "drop", "hangreset"
+			var hung []*node
+			for _, nm := range op.F {
+				nd := r.node(nm)
+				md := r.members()[nm]
+				nd.mu.Lock()
+				if len(nd.conns) > 0 && (md == "RW" || md == "WO") {
+					nd.hang = make(chan struct{})
+					nd.pingPending = false
+					hung = append(hung, nd)
+				}
+				nd.mu.Unlock()
+			}
+			deadline := time.Now().Add(3500 * time.Millisecond)
+			for _, nd := range hung {
+				for time.Now().Before(deadline) {
+					nd.mu.Lock()
+					p := nd.pingPending
+					nd.mu.Unlock()
+					if p {
+						break
+					}
+					time.Sleep(10 * time.Millisecond)
+				}
+			}
+			if os.Getenv("VERIF_DEBUG") != "" {
+				for _, nd := range hung {
+					fmt.Fprintln(os.Stderr, "hangreset:", nd.name, "pingPending", nd.pingPending, "waited", time.Until(deadline))
+				}
+			}
+			go func() {
+				time.Sleep(300 * time.Millisecond)
+				for _, nd := range hung {
+					nd.mu.Lock()
+					conns := append([]net.Conn{}, nd.conns...)
+					h := nd.hang
+					nd.hang = nil
+					nd.touched["write"]++ // the frame was sent to it
+					nd.mu.Unlock()
+					for _, cn := range conns {
+						cn.Close()
+					}
+					close(h)
+				}
+			}()
+		}
 		r.arm(op.F, key, mode)
 		var err error
 		var n int
@@ -1394,7 +1575,7 @@ func (r *run) exec1(op Op) {
 		td := r.touchedData()
 		r.disarm()
 		r.afterTransportFault(mode, op.F, td)
-		r.emit(op.Ev, map[string]interface{}{"A": strs(op.F), "w": w, "mode": mode}, res, et,
+		r.emit(op.Ev, map[string]interface{}{"A": strs(op.F), "w": w, "mode": mode, "variant": variant}, res, et,
 			map[string]interface{}{"touched": td})
 	case "Read":
 		mode := op.Mode
@@ -1969,7 +2150,11 @@ func (r *run) generate(n int, profile string) {
 			if rng.Intn(3) == 0 {
 				p = 0
 			}
-			do(Op{Ev: kind, F: r.subset(all, p), Mode: faultMode()})
+			fm := faultMode()
+			if kind == "Write" && fm != "err" && profile == "mixed" && rng.Intn(3) == 0 {
+				fm = "hangreset" // (2-3 s each: the replica must first be seen hanging by a ping)
+			}
+			do(Op{Ev: kind, F: r.subset(all, p), Mode: fm})
 		case k < wR && rng.Intn(12) == 0:
 			do(Op{Ev: []string{"WriteOOB", "ReadOOB"}[rng.Intn(2)], Kind: []string{"beyond", "straddle", "negative", "far"}[rng.Intn(4)]})
 		case k < wR:
@@ -2009,7 +2194,7 @@ func (r *run) generate(n int, profile string) {
 				if len(sf) == 0 && len(rws) > 0 && len(wo) == 0 && r.nextW < volSectors-12 && rng.Intn(3) == 0 {
 					do(Op{Ev: "AddRace", A: a, K: 3 + rng.Intn(5)}) // foreground writes during the add
 				} else {
-					do(Op{Ev: "Add", A: a, Cf: rng.Intn(12) == 0, F: sf})
+					do(Op{Ev: "Add", A: a, Cf: rng.Intn(12) == 0, F: sf, Mf: len(sf) == 0 && rng.Intn(8) == 0})
 				}
 			}
 		case k < 74: // rebuild + promote
@@ -2032,7 +2217,11 @@ func (r *run) generate(n int, profile string) {
 		case k < 80 && len(rws) == r.sc.RF && len(wo) == 0 && len(r.gated) == 0 && r.nextW < volSectors-10 &&
 			len(r.pendingMonitors()) == 0 && rng.Intn(3) == 0:
 			snapN++
-			do(Op{Ev: "SnapRace", Name: fmt.Sprintf("u%d", snapN), K: 4 + rng.Intn(4)})
+			if rng.Intn(3) == 0 {
+				do(Op{Ev: "SnapRemove", Name: fmt.Sprintf("u%d", snapN), A: rws[rng.Intn(len(rws))]})
+			} else {
+				do(Op{Ev: "SnapRace", Name: fmt.Sprintf("u%d", snapN), K: 4 + rng.Intn(4)})
+			}
 		case k < 80:
 			snapN++
 			var f []string
@@ -2188,7 +2377,7 @@ func main() {
 	var scn int32
 	runOne := func(sc Scenario, generate bool) {
 		k := atomic.AddInt32(&scn, 1)
-		r := &run{sc: sc, w: w, rng: rng, work: *work, subnet: fmt.Sprintf("127.%d.%d", 10+*worker, k%250)}
+		r := &run{t0: time.Now(), sc: sc, w: w, rng: rng, work: *work, subnet: fmt.Sprintf("127.%d.%d", 10+*worker, k%250)}
 		curRun = r
 		if err := r.setup(); err != nil {
 			fmt.Fprintln(os.Stderr, "HARNESS-ERROR: setup:", err)
